@@ -654,6 +654,8 @@ def translate():
         flag = (stm == core[:1] + [guard] + core[1:])
         ob('coordutil.getinterpweights: body is interp1d(identity) [+ single-level guard], maximum(0, .), renormalise (impl_weights / hat)',
            stm == core or flag, 'body differs from the modelled statements: %r' % stm)
+        ob('coordutil.getinterpweights: single-level guard `if np.size(xs) == 1: return np.ones((1, np.size(nxs)), dtype=\'d\')` present (fix 2b86c82)',
+           flag, 'guard missing: a single source level yields NaN weights again')
         ob('coordutil.getinterpweights(xs, nxs, kind, fill_value, extrapolate=False) signature',
            [a.arg for a in fn.args.args] == ['xs', 'nxs', 'kind', 'fill_value', 'extrapolate'] and un(fn.args.defaults[-1]) == 'False', 'signature changed')
         fn, body = body_of(cu, 'sigma2coeff')
@@ -701,9 +703,11 @@ LEVEL_TEXT = ('Theorems (Props/C17.v, all closed under the global context) over 
               'lengths (C17_sigma2coeff_is_overlap); for grids sharing top and bottom the rows sum to the source thickness and the normaliser '
               'is the target thickness (C17_overlap_marginals), hence the thickness-weighted column integral is conserved for every field '
               '(C17_column_mass_conserved) and a constant field stays constant (C17_constant_preserved; C17_column_mass_algebra is the '
-              'matrix identity used). A single source level gives NaN weights (C17_single_level_refuted = known finding). Tie H: library weight '
+              'matrix identity used). A single source level gets weight one (C17_single_level_repaired). Tie H: library weight '
               'and coefficient matrices as exact fractions vs the model, interpDimension along either axis of 1-D/2-D variables and with N-D '
-              'per-column coordinates, ioapi_base.interpSigma column integrals.')
+              'per-column coordinates, ioapi_base.interpSigma column integrals. Tie T: translate() compares the bodies of getinterpweights and '
+              'sigma2coeff and the modelled statements of interpSigma / interpDimension with the source AST and regenerates Gen/InterpSrc.v '
+              '(single-level guard present or not; C17_model_follows_source, C17_single_level_repaired).')
 LEVEL_NOTE = ('Trusted: Coq kernel + vm_compute; the correspondence harness; scipy interp1d / numpy.interp abstractions (interp1d sorts a '
               'descending source = the reversal in the model); binary64 exact on power-of-two spacings. Not covered by theorems: the float32 '
               'division nvals = num / ndp in the file (checked to 2e-6), interpSigma vgtop rescaling, bpch/gcnc interpSigma variants, '
